@@ -39,6 +39,11 @@ example : agree? [(0, some [2, 2])]
 theorem agree_implies_progAgree (gs : Grids) (p : List Stmt) (h : agree? gs p = true) : ProgAgree gs {} {} p :=
   progAgreeB_sound gs p {} {} h
 
+/-- the statement index the driver reports (`A 0 <i>`) is `none` exactly when the check passes -/
+theorem agree_iff_no_disagreeing_statement (gs : Grids) (p : List Stmt) :
+    disagreeAt gs p = none ↔ agree? gs p = true :=
+  progDisagreeAt_none_iff gs p {} {} 0
+
 /-- the check rejects the program on which the routes differ (`shaped` of a full reduction) -/
 theorem agree_detects_0d_shaped :
     agree? [(0, some [1])] [Stmt.assign 0 (.shaped (.red .max .all (.field ⟨[1], .real, [⟨3, 0⟩]⟩ 0)))] = false := by
